@@ -11,6 +11,7 @@ import pandapipes as pp
 from pandapipes.pf.pipeflow_setup import PipeflowNotConverged
 
 ID = "C04"
+CASE_WEIGHT = 32   # relative cost of one case (pool sizing)
 LEVEL = "exploration"
 RULE = ("flag lattices: every one of the 2^k assignments of k boolean cells (junction/pipe/pump/heat exchanger/heat "
         "consumer/ext_grid/circ pump/sink in_service, valve opened (ju and pi), flow control & pressure control "
